@@ -12,6 +12,8 @@ pub struct Relativizer<T> {
     path_end: usize,
     slashes: Vec<usize>,
     pseudoroot: usize, // not the actual root, but the point below which we don't relativize
+    parents: u8,
+    path_begin: usize,
 }
 
 impl<T: Deref<Target = str>> Relativizer<T> {
@@ -59,6 +61,8 @@ impl<T: Deref<Target = str>> Relativizer<T> {
             path_end,
             slashes,
             pseudoroot,
+            parents,
+            path_begin,
         }
     }
 
@@ -69,23 +73,60 @@ impl<T: Deref<Target = str>> Relativizer<T> {
 
     /// Relativize the given IRI against the base of this [`Relativizer`] if possible.
     pub fn relativize<'a>(&self, iri: Iri<&'a str>) -> Option<IriRef<Cow<'a, str>>> {
+        let candidate = self.candidate(iri)?;
+        // The candidate is computed from byte offsets, assuming a hierarchical path without
+        // dot segments, empty segments or ':' in its first segment.
+        // Make sure that it is a valid IRI reference, that it does not use more '../' than allowed,
+        // and that it actually resolves back to `iri`; otherwise give up.
+        if !crate::is_valid_iri_ref(&candidate) {
+            return None;
+        }
+        let path = candidate.split(['?', '#']).next().unwrap_or("");
+        let ups = path.split('/').take_while(|seg| *seg == "..").count();
+        if ups > self.parents as usize {
+            return None;
+        }
+        let base = BaseIri::new(&self.base[..]).ok()?;
+        match base.resolve(&candidate[..]) {
+            Ok(abs) if abs.as_str() == iri.as_str() => Some(IriRef::new_unchecked(candidate)),
+            _ => None,
+        }
+    }
+
+    /// Compute a candidate relative reference (not validated).
+    fn candidate<'a>(&self, iri: Iri<&'a str>) -> Option<Cow<'a, str>> {
         let lcp = longest_common_prefix(&self.base, iri.as_str());
-        if lcp >= self.query_end {
+        if lcp >= self.query_end
+            && (iri.len() == self.query_end || iri[self.query_end..].starts_with('#'))
+        {
             // iri is identicical to base or differs in the fragment only.
             // regardless, we must include the fragment (if any) in the relative IRI.
-            Some(IriRef::new_unchecked(iri[self.query_end..].into()))
+            Some(iri[self.query_end..].into())
         } else if lcp > self.path_end {
             // both iri and base have a query and-or fragment (because lcp is *strictly* > to path_end)
             // and they differ in the query or presence thereof
             // (because if if they differed only in fragment, we would have matched above)
             // → we include query and-or fragment in the relative IRI
-            Some(IriRef::new_unchecked(iri[self.path_end..].into()))
+            Some(iri[self.path_end..].into())
         } else if lcp == self.path_end
             && (iri.len() == self.path_end || iri[self.path_end..].starts_with(['?', '#']))
         {
             // both iri and base have exactly the same path, but differ after
-            // → same as above
-            Some(IriRef::new_unchecked(iri[self.path_end..].into()))
+            let rest = &iri[self.path_end..];
+            if self.query_end > self.path_end && !rest.starts_with('?') {
+                // base has a query that iri lacks:
+                // the last path segment must be repeated, otherwise the query of base would be kept
+                let path = &self.base[self.path_begin..self.path_end];
+                let last_seg = &path[path.rfind('/').map(|i| i + 1).unwrap_or(0)..];
+                if last_seg.is_empty() {
+                    Some(format!("./{rest}").into())
+                } else {
+                    Some(format!("{last_seg}{rest}").into())
+                }
+            } else {
+                // → same as above
+                Some(rest.into())
+            }
         } else if lcp >= self.pseudoroot {
             // iri and base have similar paths
             for (nb, slash) in self.slashes.iter().copied().enumerate() {
@@ -93,17 +134,15 @@ impl<T: Deref<Target = str>> Relativizer<T> {
                     return if nb == 0 {
                         if iri.len() == slash + 1 || iri[slash + 1..].starts_with(['?', '#']) {
                             // insert ./ if there is no path element after the last slash
-                            Some(IriRef::new_unchecked(
-                                format!("./{}", &iri[slash + 1..]).into(),
-                            ))
+                            Some(format!("./{}", &iri[slash + 1..]).into())
                         } else {
-                            Some(IriRef::new_unchecked(iri[slash + 1..].into()))
+                            Some(iri[slash + 1..].into())
                         }
                     } else {
                         // insert the expected amount of '../'
                         let mut parts = vec![".."; nb + 1];
                         parts[nb] = &iri[slash + 1..];
-                        Some(IriRef::new_unchecked(parts.join("/").into()))
+                        Some(parts.join("/").into())
                     };
                 }
             }
@@ -112,17 +151,15 @@ impl<T: Deref<Target = str>> Relativizer<T> {
                     && (iri.len() == self.pseudoroot
                         || iri[self.pseudoroot..].starts_with(['?', '#']))
                 {
-                    Some(IriRef::new_unchecked(
-                        format!("./{}", &iri[self.pseudoroot..]).into(),
-                    ))
+                    Some(format!("./{}", &iri[self.pseudoroot..]).into())
                 } else {
-                    Some(IriRef::new_unchecked(iri[self.pseudoroot..].into()))
+                    Some(iri[self.pseudoroot..].into())
                 }
             } else {
                 let nb = self.slashes.len();
                 let mut parts = vec![".."; nb + 1];
                 parts[nb] = &iri[self.pseudoroot..];
-                Some(IriRef::new_unchecked(parts.join("/").into()))
+                Some(parts.join("/").into())
             }
         } else {
             // iri and base are too different to relativize
